@@ -378,8 +378,9 @@ def for_in(
         sequences.
     """
 
-    mapped: Iterable[Observable[_T2]] = map(mapper, values)
-    return concat_with_iterable(mapped)
+    # map() is a one-shot iterator: build it per subscription so that the
+    # resulting observable can be subscribed again.
+    return defer(lambda _: concat_with_iterable(map(mapper, values)))
 
 
 @overload
